@@ -231,7 +231,7 @@ pub fn candles(class: usize, seed: u64, len: usize, n_hint: usize) -> Vec<Candle
 			zv_left -= 1;
 			0.0
 		} else if class == 2 && r.chance(0.05) {
-			q(vol_base * 1e9 * r.f())
+			q(vol_base * if F32 { 1e3 } else { 1e9 } * r.f())
 		} else if class != 6 && r.chance(0.03) {
 			0.0
 		} else {
